@@ -42,7 +42,7 @@ namespace TAO_PEGTL_NAMESPACE::internal
    struct rep_min_max< Min, Max, Rule >
    {
       using rule_t = rep_min_max;
-      using subs_t = type_list< Rule >;
+      using subs_t = type_list< Rule, not_at< Rule > >;
 
       static_assert( Min <= Max );
 
